@@ -296,6 +296,9 @@ def check(ctx):
     ctx.rule("R8", "every caller completes: the pause between two attempts sleeps on the configuration's shared future (config_sleep); a sleeper whose own delay runs out, or that is cancelled, must leave that future alone - a wait that cancels what it waited for throws CancelledError out of every OTHER sleeper, among them a request in its retry pause: it neither returns a reply nor reports failure (C17.R3's sleeper model borrowed)")
     from .c17 import sleeper_model as _sm6
     _sm6(ctx.borrowed("R8", "C17"), repo, "R3")
+    ctx.rule("R9", "the configured budget is the budget in force: no parameter default of the package reads the runtime configuration object (a default is evaluated once, at import: `retry_count=GeckoConfig.PROTOCOL_RETRY_COUNT` in a signature keeps the import-time value whatever is configured later)")
+    from .c17 import config_read_at_definition as _crad
+    _crad(ctx, repo, "R9", skip_mods=("/driver/protocol/statusblock.py", "/driver/spastruct.py", "/driver/async_spastruct.py"))
     ctx.rule("R7", "a reply is only served to the request it was sent for: a reply that arrives after its request has given up is removed by the discard consumer after one polling interval also while the request lock is held (retry pause, queued callers) - otherwise it sits at the head and is handed to the next request of that verb at once (C07's discard-consumer model borrowed)")
     from .c07 import discard_consumer_model
     discard_consumer_model(ctx.borrowed("R7", "C07"), repo, "R7")
